@@ -63,6 +63,8 @@ def classify(f):
         reasons.append("acceptance_statistic_is_not_the_documented_function_of_the_energy_errors")
     if not ev.get("daok", True):
         reasons.append("step_is_not_the_documented_update_of_the_statistics")
+    if not ev.get("barok", True):
+        reasons.append("reported_averaged_step_is_not_the_weighted_average_of_the_iterates")
     if not ev.get("mmok", True):
         reasons.append("estimate_not_from_the_window_draws")
     if not reasons:
